@@ -78,7 +78,7 @@ PROPERTIES = {
     },
     "C04": {
         "level": "proof",
-        "verus_units": ["convert", "fromfixed@*"],
+        "verus_units": ["convert", "fromfixed@*", "intconv"],
         "kani": TFH + _mods("conv8", ["s0", "s4", "s8"], ["i8_to_i8", "i8_to_u8", "u8_to_i8", "u8_to_u8"]) + CONVINT + CONVX,
         "kani_thorough": _mods("conv8", [x for x in S9 if x not in ("s0", "s4", "s8")], ["i8_to_i8", "i8_to_u8", "u8_to_i8", "u8_to_u8"]),
         "explanation": "`impl FromFixed for <family>` (from_fixed, checked_, saturating_, wrapping_, overflowing_from_fixed) verified by Verus for all ten "
@@ -130,7 +130,7 @@ PROPERTIES = {
     },
     "C11": {
         "level": "proof",
-        "verus_units": ["arith_widen", "arith128", "widediv", "nofrac", "fracops", "round@*", "transc", "leaves", "cmp@*", "fromfixed@*", "fromfloat@*", "wrapping", "traitfwd@*"],
+        "verus_units": ["arith_widen", "arith128", "widediv", "nofrac", "fracops", "round@*", "transc", "leaves", "cmp@*", "fromfixed@*", "fromfloat@*", "wrapping", "traitfwd@*", "intconv"],
         "kani": [{"harness": h, "classes": ["panic"]} for h in
                  _mods("arith8", ["i4f4", "i0f8", "u4f4", "u0f8"], FORMS) + ["arith8::abs_forms_i8"] + TFH
                  + ["float::check_to_f32", "float::check_to_f64", "float::check_kind_f32", "float::check_kind_f64"]
@@ -159,8 +159,8 @@ PROPERTIES = {
     "C09": {
         "level": "other",
         "verus_units": ["leaves"],
-        "kani": ["display::display_default", "display::display_precision", "display::display_plus", "display::display_lower_hex", "display::display_binary"],
-        "kani_thorough": ["display::display_sign", "display::display_zero_pad", "display::display_width", "display::display_upper_hex",
+        "kani": ["display::display_default", "display::display_precision", "display::display_plus", "display::display_lower_hex", "display::display_binary", "display::display_width_precision"],
+        "kani_thorough": ["display::display_sign", "display::display_zero_pad", "display::display_width", "display::display_width_precision_left", "display::display_width_precision_zero", "display::display_upper_hex",
                           "display::display_octal", "display::display_alt_hex"],
         "explanation": "BOUNDED: the real fmt_dec / fmt_radix2 (run-time frac_nbits through the hook new-types) on every 8-bit value and all nine "
                        "layouts: `{}` is the correct rounding at the digits shown and lies within half an ulp (round trip); `{:.p}` for p <= 9 is the "
@@ -199,7 +199,8 @@ PROPERTIES = {
     },
     "C18": {
         "level": "proof",
-        "verus_units": ["wrapping", "traitfwd@*", "nofrac", "fracops", "round@*"],
+        "verus_units": ["wrapping", "traitfwd@*"],
+        "verus_units_thorough": ["nofrac", "fracops", "round@*"],
         "kani": _mods("wrap8", ["i4f4", "i0f8", "u4f4", "u0f8"], ["arith_ops", "bit_and_shift_ops", "rounding_and_conversion"])
                 + ["wrap8::i4f4::ref_and_assign_forms", "wrap8::u4f4::ref_and_assign_forms"]
                 + ["wrap8::signed_only_ops", "wrap8::fold_i4f4", "wrap8::fold_i1f7", "wrap8::fold_i0f8", "wrap8::fold_u0f8", "wrap8::fold_u4f4"],
